@@ -24,7 +24,11 @@
 
    The verdict: the executed result of every stage is DenoteFrame(src, program) -
    same kind of object, same columns in the same order, same rows (index label
-   and cells) in the same order.  dtype classes: optimization must not change
+   and cells) in the same order; a program that holds a drop_duplicates
+   promises no row order (dask de-duplicates through a shuffle / tree reduction)
+   and its rows are compared as a multiset of (label, cells) pairs - which
+   still says WHICH of several duplicates survives (keep = first / last).
+   dtype classes: optimization must not change
    them - a stage is right when its classes are those of the unoptimized
    execution (`base`) or those of pandas (as in FrameOpsTrace, C36: an integer
    result is accepted where pandas, looking at the whole column, says float);
@@ -38,6 +42,8 @@ EXTENDS Optimizer, TraceIO
 KindsOK(obs, wnt) == /\ Len(obs) = Len(wnt)
                      /\ \A j \in DOMAIN wnt : obs[j] = wnt[j] \/ (wnt[j] = "f" /\ obs[j] = "i")
 
+RowPairs(rows) == [k \in DOMAIN rows |-> <<rows[k].idx, rows[k].v>>]
+
 Bad(r) ==
   LET w == DenoteFrame(r.src, [steps |-> r.steps, fin |-> r.fin])
       o == r.obs
@@ -46,6 +52,7 @@ Bad(r) ==
           \cup Clause("Cols", o.cols = w.cols)
           \cup Clause("Dtypes", Len(o.rows) = 0 \/ o.kinds = r.base \/ KindsOK(o.kinds, w.kinds))
           \cup (IF Len(o.rows) # Len(w.rows) THEN {"NRows"}
+                ELSE IF HasDropDup(r.steps) THEN Clause("Values", SameBag(RowPairs(o.rows), RowPairs(w.rows)))
                 ELSE Clause("Index", IdxSeq(o.rows) = IdxSeq(w.rows))
                      \cup Clause("Values", ValSeq(o.rows) = ValSeq(w.rows)))
 
